@@ -184,7 +184,8 @@ func runWorker(bin, prop string, jobs []Job, procs int, sample int, timeout time
 	cmd.Env = append(os.Environ(), "DST_PROP="+prop, "DST_JOBS="+jf, "DST_PROCS="+strconv.Itoa(procs), "DST_SAMPLE="+strconv.Itoa(sample), "GOTRACEBACK=all", "GOGC=off", "DST_KNOWN="+filepath.Join(verifDir, "known_findings.json"))
 	if raceBins[bin] {
 		rl := filepath.Join(verifDir, "build", fmt.Sprintf("racelog.%d.%d", os.Getpid(), mySeq))
-		cmd.Env = append(cmd.Env, "GORACE=log_path="+rl+" halt_on_error=0", "DST_RACELOG="+rl)
+		// the detector's shadow memory multiplies the footprint: recycle race workers early
+		cmd.Env = append(cmd.Env, "GORACE=log_path="+rl+" halt_on_error=0", "DST_RACELOG="+rl, "DST_MAXHEAP_MB=400", "DST_HARDHEAP_MB=2500")
 		defer func() {
 			if fs, _ := filepath.Glob(rl + ".*"); len(fs) > 0 {
 				for _, f := range fs {
